@@ -15,7 +15,9 @@
 //!       `PathStrategy::add_policy`; the harness evaluates them one by one with the policy objects (never through
 //!       `PathStrategy::predicate`): every cached path, the active slot and every handed-out path is accepted by
 //!       EVERY attached policy, has the requested endpoints, was delivered by a fetch of this history, has
-//!       metadata when a policy needs metadata; nothing is handed out while no fetched path is allowed by all;
+//!       readable hops when a policy is hop-based (`hops_readable`: the harness's own reading of the interface list - no
+//!       metadata, no list, an empty / single-element / odd-length list or a hop split over two ASes is unreadable and
+//!       must be rejected by every ACL / hop pattern); nothing is handed out while no fetched path is allowed by all;
 //!       `PathStrategy::predicate` agrees with the conjunction on every fetched path;
 //!  C06: a handed-out path is not expired at `now`; no panic; after a fetch a sender gets a path whenever
 //!       a cached path is valid; cache / issue cache / issue FIFO sizes within the configuration; next
@@ -96,7 +98,10 @@ struct Route {
 struct PSpec {
     route: usize,
     expiry: u32,
-    /// 0 = metadata with interfaces, 1 = no metadata, 2 = metadata without interface list
+    /// 0 = metadata with interfaces, 1 = no metadata, 2 = metadata without interface list,
+    /// 3 = metadata with an EMPTY interface list, 4 = interface list cut after the first interface,
+    /// 5 = interface list without its last interface (odd length), 6 = the two interfaces of the first transit hop
+    /// attributed to different ASes (5 when the route has no transit hop): lists no hop sequence can be read from
     meta: u8,
 }
 
@@ -206,8 +211,23 @@ fn build_path(r: &Route, p: &PSpec) -> ScionPath {
     match p.meta {
         0 => full,
         1 => ScionPath::new(src_ia(), dst_ia(), full.dp_path().clone(), None, None),
-        _ => {
+        2 => {
             let m = full.metadata().cloned().map(|m| PathMetadata { interfaces: None, ..m });
+            ScionPath::new(src_ia(), dst_ia(), full.dp_path().clone(), m, None)
+        }
+        k => {
+            let m = full.metadata().cloned().map(|m| {
+                let mut v = m.interfaces.clone().unwrap_or_default();
+                match k {
+                    3 => v.clear(),
+                    4 => v.truncate(1),
+                    6 if v.len() >= 4 => v[2].interface.isd_asn = IsdAsn::new(Isd(1), Asn(0x3ff)),
+                    _ => {
+                        v.pop();
+                    }
+                }
+                PathMetadata { interfaces: Some(v), ..m }
+            });
             ScionPath::new(src_ia(), dst_ia(), full.dp_path().clone(), m, None)
         }
     }
@@ -497,13 +517,18 @@ impl PolEval {
             })
             .collect()
     }
-    /// a policy that cannot be evaluated on the path (no metadata) rejects it (property text)
+    /// a policy that cannot be evaluated on the path rejects it (property text): a hop-based policy (ACL, hop
+    /// pattern) needs the hop sequence of the path; whether that can be read is decided by `hops_readable`, the
+    /// harness's own reading of the interface list - not by the policy code's answer for such a path
     fn accepts(&self, p: &ScionPath) -> bool {
         match self {
             PolEval::Mask(s) => s.contains(&path_fp(p)),
-            PolEval::Acl(a) => SciPathPolicy::path_allowed(a, p).unwrap_or(false),
-            PolEval::Pattern(a) => SciPathPolicy::path_allowed(a, p).unwrap_or(false),
+            PolEval::Acl(a) => hops_readable(p) && SciPathPolicy::path_allowed(a, p).unwrap_or(false),
+            PolEval::Pattern(a) => hops_readable(p) && SciPathPolicy::path_allowed(a, p).unwrap_or(false),
         }
+    }
+    fn hop_based(&self) -> bool {
+        matches!(self, PolEval::Acl(_) | PolEval::Pattern(_))
     }
     fn name(&self) -> &'static str {
         match self {
@@ -511,6 +536,24 @@ impl PolEval {
             PolEval::Acl(_) => "acl",
             PolEval::Pattern(_) => "hop-pattern",
         }
+    }
+}
+/// Can the hop sequence of a path between two different ASes be read from its metadata?  The interface list of the
+/// path metadata is: the egress interface of the source AS, then (ingress, egress) for every transit AS, then the
+/// ingress interface of the destination AS.  No metadata, no interface list, an empty list, a single interface, an
+/// odd number of interfaces or a transit pair whose two interfaces belong to different ASes give no hop sequence.
+fn hops_readable(p: &ScionPath) -> bool {
+    let Some(v) = p.metadata().and_then(|m| m.interfaces.as_ref()) else { return false };
+    v.len() >= 2 && v.len() % 2 == 0 && v[1..v.len() - 1].chunks(2).all(|c| c[0].interface.isd_asn == c[1].interface.isd_asn)
+}
+fn unreadable_why(p: &ScionPath) -> &'static str {
+    match p.metadata().map(|m| m.interfaces.as_ref()) {
+        None => "no metadata",
+        Some(None) => "metadata without interface list",
+        Some(Some(v)) if v.is_empty() => "empty interface list",
+        Some(Some(v)) if v.len() == 1 => "interface list with a single interface",
+        Some(Some(v)) if v.len() % 2 == 1 => "interface list of odd length",
+        Some(Some(_)) => "transit interfaces of one hop in different ASes",
     }
 }
 fn verdicts(pe: &[PolEval], p: &ScionPath) -> Vec<bool> {
@@ -521,7 +564,11 @@ fn all_accept(pe: &[PolEval], p: &ScionPath) -> bool {
 }
 /// "#1 (acl)": the first attached policy that rejects the path
 fn rejecting(pe: &[PolEval], p: &ScionPath) -> String {
-    pe.iter().enumerate().find(|(_, e)| !e.accepts(p)).map(|(i, e)| format!("attached policy #{} of {} ({})", i + 1, pe.len(), e.name())).unwrap_or_default()
+    pe.iter()
+        .enumerate()
+        .find(|(_, e)| !e.accepts(p))
+        .map(|(i, e)| format!("attached policy #{} of {} ({}{})", i + 1, pe.len(), e.name(), if e.hop_based() && !hops_readable(p) { format!(": hops cannot be read - {}", unreadable_why(p)) } else { String::new() }))
+        .unwrap_or_default()
 }
 
 fn run_history(h: &Hist, lean: &mut Lean, prop: &str) -> Outcome {
@@ -574,7 +621,7 @@ fn run_history(h: &Hist, lean: &mut Lean, prop: &str) -> Outcome {
         out.spec.push(("C05:strategy-predicate".into(), format!("{} policies were attached with add_policy but the strategy holds {}", pe.len(), policies.len())));
     }
     out.labels.push(format!("policies attached: {}", pe.len()));
-    let needs_meta = pe.iter().any(|e| matches!(e, PolEval::Acl(_) | PolEval::Pattern(_)));
+    let needs_meta = pe.iter().any(|e| e.hop_based());
     let script = Arc::new(Mutex::new(Script { next: None, calls: 0, bad_pair: false }));
     let vs = match catch(|| VerifPathSet::new(src_ia(), dst_ia(), vcfg, ScriptFetcher(script.clone()), policies, st(h.t0))) {
         Ok(v) => v,
@@ -639,6 +686,9 @@ fn run_history(h: &Hist, lean: &mut Lean, prop: &str) -> Outcome {
                     RespSpec::Ok(ps) => ps.iter().filter(|p| p.route < h.routes.len()).map(|p| build_path(&h.routes[p.route], p)).collect(),
                     _ => vec![],
                 };
+                for p in paths.iter().filter(|p| !hops_readable(p)) {
+                    out.labels.push(format!("fetched path with unreadable hops ({}) under {}", unreadable_why(p), if needs_meta { "a hop-based policy" } else { "no hop-based policy" }));
+                }
                 let vds: Vec<Vec<bool>> = paths.iter().map(|p| verdicts(&pe, p)).collect();
                 let flags: Vec<bool> = vds.iter().map(|v| v.iter().all(|b| *b)).collect();
                 // `PathStrategy::predicate` ("true if the path is accepted by all policies"): the manager's own
@@ -1004,8 +1054,12 @@ fn run_history(h: &Hist, lean: &mut Lean, prop: &str) -> Outcome {
                     if !delivered.iter().any(|d| d == hp) {
                         spec.push(("C05:handout-provenance".into(), format!("handed-out path {} was never returned by a fetch", fp_exp(hp))));
                     }
-                    if needs_meta && hp.metadata().and_then(|m| m.interfaces.as_ref()).is_none() {
-                        spec.push(("C05:no-metadata".into(), "a path without interface metadata was handed out under a hop policy".into()));
+                    if needs_meta && !hops_readable(hp) {
+                        if hp.metadata().and_then(|m| m.interfaces.as_ref()).is_none() {
+                            spec.push(("C05:no-metadata".into(), "a path without interface metadata was handed out under a hop policy".into()));
+                        } else {
+                            spec.push(("C05:hops-unreadable".into(), format!("path {} was handed out under a hop-based policy although its hops cannot be read ({}): the policy cannot have been evaluated on it", fp_exp(hp), unreadable_why(hp))));
+                        }
                     }
                     if hp.expiration().map(|e| e as u64 <= now / NS).unwrap_or(false) {
                         spec.push(("C06:handout-expired".into(), format!("handed-out path {} is expired at now={now}", fp_exp(hp))));
@@ -1515,6 +1569,23 @@ fn gen_history(rng: &mut Rng, prop: &str, max_ops: usize) -> Hist {
         if matches!(pol, PolSpec::None) && !more.is_empty() {
             pol = more.remove(0);
         }
+        // policies that accept a path whatever its hops are, or reject every path by its destination: an ACL whose
+        // default is allow, hop patterns that match the empty sequence
+        if n >= 1 && rng.chance(1, 4) {
+            let r = rng.pick(&routes);
+            let deny = r.transit.first().map(|(asn, _, _)| format!("- 1-{asn}, ")).unwrap_or_default();
+            let p = match rng.below(6) {
+                0 => PolSpec::Acl("+".into()),
+                1 => PolSpec::Acl(format!("{deny}+")),
+                2 => PolSpec::Acl(format!("- 2-{}, +", DST_ASN)),
+                3 => PolSpec::Pattern("0*".into()),
+                4 => PolSpec::Pattern("0* 0*".into()),
+                _ => PolSpec::Pattern("0?".into()),
+            };
+            if build_strategy(&Hist { kind: String::new(), cfg: cfg.clone(), pol: p.clone(), more: vec![], routes: vec![], t0, ops: vec![] }).is_some() {
+                if more.is_empty() || rng.chance(1, 2) { pol = p } else { let j = rng.below(more.len() as u64) as usize; more[j] = p }
+            }
+        }
     }
     let mut h = Hist { kind: "random".into(), cfg, pol, more, routes, t0, ops: vec![] };
     if h.cfg.to_verif().validate().is_err() {
@@ -1555,6 +1626,19 @@ fn gen_history(rng: &mut Rng, prop: &str, max_ops: usize) -> Hist {
                         let route = *rng.pick(&seen_routes);
                         let expiry = (cur / NS + thr_ns / NS + rng.range(60, 20000)) as u32;
                         v.push(PSpec { route, expiry, meta: 1 + rng.below(2) as u8 });
+                    }
+                    // C05: metadata is there but no hop sequence can be read from its interface list (empty, a single
+                    // interface, odd length, a hop split over two ASes) - for a route seen before or a new one
+                    if prop == "C05" && rng.chance(1, 3) {
+                        let route = if !seen_routes.is_empty() && rng.chance(1, 2) { *rng.pick(&seen_routes) } else { rng.below(h.routes.len() as u64) as usize };
+                        let expiry = (cur / NS + thr_ns / NS + rng.range(60, 20000)) as u32;
+                        let p = PSpec { route, expiry, meta: *rng.pick(&[3u8, 3, 3, 4, 5, 6]) };
+                        if rng.chance(1, 3) {
+                            // ... and nothing else comes back
+                            v.clear();
+                        }
+                        let at = rng.below(v.len() as u64 + 1) as usize;
+                        v.insert(at, p);
                     }
                     for p in v.iter().filter(|p| p.meta == 0) {
                         if !seen_routes.contains(&p.route) {
@@ -2295,6 +2379,38 @@ fn probes(prop: &str) -> Vec<Hist> {
                         OpSpec::Send { now: s(2) },
                         OpSpec::Maintain { now: s(100), resp: RespSpec::Ok(answer) },
                         OpSpec::Send { now: s(101) },
+                    ],
+                });
+            }
+        }
+        // metadata present, but no hop sequence can be read from the interface list: every hop-based policy has to
+        // reject the path - also an ACL whose default is allow (alone, behind a deny entry for a transit AS of the path,
+        // behind a deny entry for the destination) and hop patterns that match the empty sequence.  First the lookup
+        // returns nothing else (the caller must get an error), then a readable path of another route comes with it.
+        for (mk, shape) in [(3u8, "empty"), (4, "single"), (5, "odd"), (6, "split-as")] {
+            for (pn, pol) in [
+                ("acl-allow", PolSpec::Acl("+".into())),
+                ("acl-deny-transit", PolSpec::Acl(format!("- 1-{}, +", 0x301))),
+                ("acl-deny-destination", PolSpec::Acl(format!("- 2-{}, +", DST_ASN))),
+                ("pattern-any", PolSpec::Pattern("0*".into())),
+            ] {
+                v.push(Hist {
+                    kind: format!("probe-unreadable-hops-{shape}-{pn}"),
+                    cfg: base_cfg(),
+                    pol,
+                    more: vec![],
+                    routes: two_routes(),
+                    t0,
+                    ops: vec![
+                        OpSpec::Maintain { now: s(0), resp: RespSpec::Ok(vec![PSpec { route: 0, expiry: far, meta: mk }, PSpec { route: 2, expiry: far, meta: mk }]) },
+                        OpSpec::Send { now: s(1) },
+                        OpSpec::Maintain { now: s(20), resp: RespSpec::Ok(vec![PSpec { route: 0, expiry: far, meta: mk }, PSpec { route: 1, expiry: far, meta: 0 }]) },
+                        OpSpec::Send { now: s(21) },
+                        // the readable copy of route 0 is cached, the next lookup brings it back unreadable
+                        OpSpec::Maintain { now: s(121), resp: RespSpec::Ok(vec![PSpec { route: 0, expiry: far, meta: 0 }, PSpec { route: 1, expiry: far, meta: 0 }]) },
+                        OpSpec::Send { now: s(122) },
+                        OpSpec::Maintain { now: s(222), resp: RespSpec::Ok(vec![PSpec { route: 0, expiry: far + 50, meta: mk }, PSpec { route: 1, expiry: far + 50, meta: mk }]) },
+                        OpSpec::Send { now: s(223) },
                     ],
                 });
             }
